@@ -105,6 +105,11 @@ UNARY = [
     '"a,b" | split(",")', '"a,b" / ","', '"abc" | indices("b"), index("b"), rindex("b")', "[1,2,1] | indices(1), index(1), rindex(1)",
     '"x" * 3', '3 * "x"', '"x" * -1', "last(empty)", "nth(2; 1,2)", "nth(-1; 1,2)", "[limit(0; 1,2)]", "[first(range(5)), last(range(5))]",
     '{"a":[1,2],"b":3} | .a[1] = 9', '{"a":[1,2],"b":3} | .a |= map(. + 1)', '{"a":[1,2],"b":3} | keys, length',
+    # jq orders objects by sorted key sets, then by values in *sorted-key* order - whatever order the keys were written in
+    '[{"b":1,"a":2},{"b":2,"a":1}] | sort', '{"b":1,"a":2} < {"b":2,"a":1}', '{"b":2,"a":1} < {"b":1,"a":2}', '{"b":1,"a":2} == {"a":2,"b":1}',
+    '[{"name":"alice","age":40},{"name":"bob","age":30}] | sort, min, max', '[{"b":1,"a":2},{"b":2,"a":1},{"a":2,"b":1}] | unique',
+    '[{"b":1,"a":2},{"b":2,"a":1}] | group_by(.) | map(length)', '[{"b":[1],"a":[2]},{"b":[2],"a":[1]}] | sort_by(.), min_by(.), max_by(.)',
+    '[{"c":0,"b":1,"a":2},{"c":0,"b":2,"a":1},{"a":0,"c":9}] | sort | map(keys_unsorted)', '[{"b":1,"a":2},{"b":2,"a":1}] | bsearch({"b":2,"a":1})',
 ]
 UNARY = [u for u in UNARY if u]
 
